@@ -8,7 +8,7 @@ T(i) == Trace[i].t            \* tdef events come first, in index order
 Failed(i) ==
   LET e == Trace[i] IN
   CASE e.ev = "tdef"  -> IF e.i # i THEN {"Echo"}
-                         ELSE IF Gen # <<>> /\ ~TEquals(e.t, Gen[i].t) THEN {"Echo"} ELSE {}
+                         ELSE IF Gen # <<>> /\ i <= Len(Gen) /\ ~TEquals(e.t, Gen[i].t) THEN {"Echo"} ELSE {}   \* entries beyond Gen: library-derived representations
     [] e.ev = "tone"  -> ToneFailed(e, T(e.i))
     [] e.ev = "tpair" -> PairFailed(e, T(e.i), T(e.j))
     [] e.ev = "tsame" -> IF e.t = T(e.i) THEN {} ELSE {"C20.TypeImmutable"}      \* a type reports the same definition after being operated on
